@@ -289,6 +289,15 @@ func genC17(env *Env) *Gen {
 	} else {
 		g.OutOfDate = append(g.OutOfDate, "pkg/prebuild/builder:Run")
 	}
+	// the text written to every output file is directive.Run(builder.Run(what was read)):
+	// the builder chain is applied to every file and its output is not discarded
+	if fn := env.Prog.Func("pkg/prebuild/cli", "Build"); fn != nil {
+		g.addFunc(env, fn)
+		g.Static = append(g.Static, frame.PipelineShape(env.Prog, fn, []string{"pkg/paths.Path).ReadFileAsString", "pkg/prebuild/builder.Run", "pkg/prebuild/directive.Run", "pkg/paths.Path).WriteFile"}))
+		g.Static = append(g.Static, frame.ErrorsPropagated(env.Prog, fn, "pkg/prebuild/builder.Run"))
+	} else {
+		g.OutOfDate = append(g.OutOfDate, "pkg/prebuild/cli:Build")
+	}
 	// --- chain obligations, one family per dumped configuration
 	confs := make([]string, 0, len(chainsRaw.Chains))
 	for c := range chainsRaw.Chains {
@@ -528,6 +537,46 @@ func runIsComposition(fn *ssa.Function, pkg *ssa.Package) (bool, string) {
 	}
 	if _, isSlice := gl.Type().(*types.Pointer).Elem().Underlying().(*types.Slice); !isSlice {
 		return false, "Builds is not a slice"
+	}
+	// every element is visited, first to last: a range loop, or a counter from 0 in steps
+	// of 1 whose loop condition is counter < len(Builds)
+	walksAll := false
+	if bo, ok := ia.Index.(*ssa.BinOp); ok && bo.Op == token.ADD {
+		if rp, ok := bo.X.(*ssa.Phi); ok && rp.Comment == "rangeindex" {
+			walksAll = true
+		}
+	}
+	if cp, ok := ia.Index.(*ssa.Phi); ok && !walksAll {
+		zero, step := false, false
+		for _, e := range cp.Edges {
+			if c, ok := e.(*ssa.Const); ok && c.Value != nil && c.Value.ExactString() == "0" {
+				zero = true
+			} else if bo, ok := e.(*ssa.BinOp); ok && bo.Op == token.ADD && bo.X == ssa.Value(cp) {
+				if c, ok := bo.Y.(*ssa.Const); ok && c.Value != nil && c.Value.ExactString() == "1" {
+					step = true
+				}
+			} else {
+				zero = false
+				break
+			}
+		}
+		if zero && step {
+			hb := cp.Block()
+			if iff, ok := hb.Instrs[len(hb.Instrs)-1].(*ssa.If); ok {
+				if cmp, ok := iff.Cond.(*ssa.BinOp); ok && cmp.Op == token.LSS && cmp.X == ssa.Value(cp) {
+					if lc, ok := cmp.Y.(*ssa.Call); ok {
+						if bi, ok := lc.Call.Value.(*ssa.Builtin); ok && bi.Name() == "len" && len(lc.Call.Args) == 1 {
+							if l2, ok := lc.Call.Args[0].(*ssa.UnOp); ok && l2.X == ssa.Value(gl) {
+								walksAll = true
+							}
+						}
+					}
+				}
+			}
+		}
+	}
+	if !walksAll {
+		return false, "the loop does not visit every element of Builds from the first to the last"
 	}
 	return true, "for _, b := range Builds { profile, err = b.Apply(opt, profile) } in slice order"
 }
